@@ -279,7 +279,9 @@ func matchesModuloMenu(exp map[string]bool, body string) bool {
 func runFetch(c *harness.Ctx) harness.Result {
 	r := c.Rng
 	drv.IsolateEnv(c.Tmp)
-	n := []int{2, 5, 40, 129, 300}[r.Intn(5)]
+	n := []int{2, 5, 40, 129, 300, 100, 127}[r.Intn(7)]
+	// ... and, for the two middle sizes, as many base profiles fetched at the same time
+	nbase := map[int]int{100: 100, 127: 3}[n]
 	var srcs []string
 	profs := map[string]*profile.Profile{}
 	for i := 0; i < n; i++ {
@@ -294,11 +296,22 @@ func runFetch(c *harness.Ctx) harness.Result {
 		profs[name] = p
 		srcs = append(srcs, name)
 	}
+	var bases []string
+	lists := map[string][]string{}
+	for i := 0; i < nbase; i++ {
+		name := fmt.Sprintf("base%03d", i)
+		profs[name] = profs[srcs[i%len(srcs)]]
+		bases = append(bases, name)
+	}
+	if nbase > 0 {
+		lists["base"] = bases
+		c.Stat("fetches_with_bases", 1)
+	}
 	run := func(seed int64) (string, error) {
-		g := c16.NewGate(srcs)
+		g := c16.NewGate(append(append([]string{}, srcs...), bases...))
 		g.Profiles, g.Kind = profs, map[string]string{}
-		g.Drive([][]string{srcs, nil}, seed)
-		s := &drv.Session{Flags: &drv.Flags{Bools: map[string]bool{"top": true, "functions": true, "flat": true}, Strs: map[string]string{"output": "out", "symbolize": "none"}, Args: srcs}, Fetch: g, Obj: &binutils.Binutils{}}
+		g.Drive([][]string{srcs, bases}, seed)
+		s := &drv.Session{Flags: &drv.Flags{Bools: map[string]bool{"top": true, "functions": true, "flat": true}, Strs: map[string]string{"output": "out", "symbolize": "none"}, Lists: lists, Args: srcs}, Fetch: g, Obj: &binutils.Binutils{}}
 		res := s.Run()
 		g.Stop()
 		if res.Panic != "" {
@@ -316,7 +329,7 @@ func runFetch(c *harness.Ctx) harness.Result {
 	}
 	// the same profiles served over HTTP to pprof's own fetcher, nothing gated: up to 128 fetches
 	// really run at the same time, each with its own seconds= parameter (and therefore timeout)
-	{
+	if nbase == 0 {
 		var urls []string
 		bodies := map[string][]byte{}
 		for i, name := range srcs {
@@ -1225,7 +1238,7 @@ func init() {
 		Level:       "exploration",
 		Race:        true,
 		Rule:        "all workers are built with -race (GORACE halt_on_error=0, reports collected from the log files and de-duplicated by the functions on top of both stacks; any report is a violation). Workloads, each compared with its sequential twin: codec (8-32 goroutines x Write / WriteUncompressed / Copy / String on one profile, plus a merged profile and its compaction serialized at the same time; bytes must equal the sequential ones), web (4-11 clients mixing /top /peek /flamegraph /source /disasm /download / with /saveconfig and /deleteconfig against one server while 2 writers flip an option through SetVariableDefault; every response must equal a sequential response for one of the option values written, Config menu excluded), fetch (2-300 sources fetched in parallel through the gated fetcher with a shared Binutils object tool; two completion orders must agree, and the same profiles served over HTTP to pprof's own fetcher, ungated, with per-source seconds= parameters must give the same report), temp (32 goroutines x 4 and 6 processes x 12 temporary files in one directory: names distinct, contents intact), tools (6-11 goroutines x 8 SourceLine calls on one object file behind an interposed symbolizer that echoes its question, while SetTools / SetFastSymbolization / Open race), firstweb (a fresh child process whose first 4-11 web requests are released together by a barrier, each compared with the same request repeated alone), tools-addr2line (4-9 goroutines x 8 SourceLine calls through one interposed GNU-addr2line process that answers one of the lookups with a diagnostic line: every call returns an answer that pairs with its question, nothing, or an error). options (3-10 assignments to different options made at the same moment by as many goroutines, 40 trials, while a reader polls the configuration: every assignment must be in effect afterwards), setters (SetFastSymbolization issued while SetTools probes an interposed slow objdump: the final state must be the one of either serial order). A case that does not finish within 2 min in 3 of 3 fresh worker processes is a deadlock (violation, goroutine dump attached). Every workload records call/return stamps from one clock and reports the number of really overlapping operation pairs. non-trivial = every case; distinct = case",
-		Assumptions: []string{"the race detector only sees accesses that happen in these runs", "sharing one fileNM object between goroutines is not something pprof does and is not exercised"},
+		Assumptions: []string{"the race detector only sees accesses that happen in these runs", "several goroutines symbolizing through one nm-backed object file is exercised by part tools-nm (pprof itself does not do it; the object file interface is otherwise safe for it)"},
 		Parts: []harness.Part{
 			{Name: "codec", Quick: 60, Thor: 3000, Run: runCodec},
 			{Name: "web", Quick: 40, Thor: 2000, Run: runWeb},
